@@ -81,6 +81,14 @@ pub mod plain_hdr;
 pub mod proto_hdr;
 pub mod session;
 
+/// Verification hooks (read-only re-exports for the runtime monitors under /verif).
+#[cfg(feature = "verif")]
+pub mod verif {
+    #[cfg(feature = "groups")]
+    pub use super::dedup::GroupCtrStore;
+    pub use super::dedup::RxCtrState;
+}
+
 pub const MATTER_SOCKET_BIND_ADDR: SocketAddr =
     SocketAddr::V6(SocketAddrV6::new(Ipv6Addr::UNSPECIFIED, MATTER_PORT, 0, 0));
 
